@@ -385,7 +385,16 @@ class MergeEngine:
     @staticmethod
     def get_remove_cset(engine, csets):
         """Generate the cset of what files shall be removed from the livefs."""
-        return csets["old_cset"].difference(csets["install"])
+        install = csets["install"]
+        remove = csets["old_cset"].difference(install)
+        # an old entry recorded through a symlinked directory can be the very
+        # object the new pkg installs under the resolved path; never remove it.
+        realpath = livefs._realpath_dir()
+        resolved = {realpath(x.location) for x in install}
+        return contents.contentsSet(
+            (x for x in remove if realpath(x.location) not in resolved),
+            mutable=remove.mutable,
+        )
 
     @staticmethod
     def get_replace_cset(engine, csets):
